@@ -100,7 +100,7 @@ def embed_pool(smiles, k, seed=7, forcefield='uff', minimise=True):
                     AllChem.UFFGetMoleculeForceField(m, confId=c.GetId()).Minimize()
                 else:
                     AllChem.MMFFSanitizeMolecule(m)
-                    p = AllChem.MMFFGetMoleculeProperties(m, mmffVariant=forcefield)
+                    p = AllChem.MMFFGetMoleculeProperties(m, mmffVariant={'mmff94': 'MMFF94', 'mmff94s': 'MMFF94s'}.get(forcefield, forcefield))
                     AllChem.MMFFGetMoleculeForceField(m, p, confId=c.GetId()).Minimize()
         m.SetProp('_Name', 'pool')
         _POOLS[key] = m
@@ -119,7 +119,7 @@ def measure_energies(mol, forcefield='uff'):
             ff = AllChem.UFFGetMoleculeForceField(m, confId=c.GetId())
         else:
             AllChem.MMFFSanitizeMolecule(m)
-            p = AllChem.MMFFGetMoleculeProperties(m, mmffVariant=forcefield)
+            p = AllChem.MMFFGetMoleculeProperties(m, mmffVariant={'mmff94': 'MMFF94', 'mmff94s': 'MMFF94s'}.get(forcefield, forcefield))
             ff = AllChem.MMFFGetMoleculeForceField(m, p, confId=c.GetId())
         out.append(ff.CalcEnergy())
     return out
